@@ -2611,6 +2611,14 @@ func (pid *PID) tryPassivation(reason string) bool {
 		return false
 	}
 
+	// a Shutdown may have completed between the manager's decision and this
+	// point (it holds the same stopLocker, and found nothing to unregister
+	// because the manager had already popped the entry): stopping the actor a
+	// second time would run PostStop twice
+	if !pid.isStateSet(runningState) {
+		return false
+	}
+
 	pid.unregisterPassivation()
 
 	ctx := context.Background()
